@@ -838,6 +838,205 @@ void t_hlist_many(Src &s, Case &c)
     ManyMode m;
     t_hlist(s, c);
 }
+struct SNode
+{
+    int id;
+    char pad[4];
+    slist_head lnk;
+};
+typedef igris::slist<SNode, &SNode::lnk> XSlist;
+
+// A node type with TWO link members of the same type, on two lists at once (a run queue and a wait queue through the same
+// object): entries of either list must come back as the right objects whatever list was looked at first.
+struct XNode2
+{
+    int id;
+    char pad[12];
+    igris::dlist_node lnk;
+    int between;
+    igris::dlist_node lnk2;
+};
+void t_cxx_dlist_two_links(Src &s, Case &c)
+{
+    typedef igris::dlist<XNode2, &XNode2::lnk> ListA;
+    typedef igris::dlist<XNode2, &XNode2::lnk2> ListB;
+    int nn = (int)s.range(1, 6);
+    std::vector<std::unique_ptr<XNode2>> nodes;
+    for (int i = 0; i < nn; i++)
+    {
+        nodes.emplace_back(new XNode2);
+        nodes.back()->id = i;
+        nodes.back()->between = 1000 + i;
+    }
+    auto *la = new ListA;
+    auto *lb = new ListB;
+    std::vector<int> ma, mb;
+    bool b_first = s.coin(); // which list is looked at first
+    c.log("two lists through two link members of %d nodes (%s observed first): ", nn, b_first ? "B" : "A");
+    auto unlink = [](std::vector<int> &m, int a) { m.erase(std::remove(m.begin(), m.end(), a), m.end()); };
+    auto check_a = [&]() {
+        std::vector<int> got;
+        for (auto it = la->begin(); it != la->end(); ++it)
+        {
+            VP_CHECK(&*it == nodes[(size_t)ma[got.size() < ma.size() ? got.size() : 0]].get() || got.size() >= ma.size(), "two_links_entry",
+                     "list A: element %zu is not the object the reference has there", got.size());
+            got.push_back(it->id);
+        }
+        VP_CHECK(got == ma, "two_links_forward", "list A reads %s, reference %s", seq_str(got).c_str(), seq_str(ma).c_str());
+    };
+    auto check_b = [&]() {
+        std::vector<int> got;
+        for (auto it = lb->begin(); it != lb->end(); ++it)
+        {
+            VP_CHECK(got.size() >= mb.size() || &*it == nodes[(size_t)mb[got.size()]].get(), "two_links_entry",
+                     "list B: element %zu is not the object the reference has there (the entry pointer is off by %td bytes)", got.size(),
+                     got.size() < mb.size() ? (char *)&*it - (char *)nodes[(size_t)mb[got.size()]].get() : (ptrdiff_t)0);
+            got.push_back(it->id);
+        }
+        VP_CHECK(got == mb, "two_links_forward", "list B reads %s, reference %s", seq_str(got).c_str(), seq_str(mb).c_str());
+    };
+    int nops = (int)s.range(1, 24);
+    for (int i = 0; i < nops; i++)
+    {
+        int a = (int)s.below((uint64_t)nn);
+        switch (s.below(6))
+        {
+        case 0:
+            c.log("A.back(n%d) ", a);
+            la->move_back(*nodes[(size_t)a]);
+            unlink(ma, a);
+            ma.push_back(a);
+            break;
+        case 1:
+            c.log("A.front(n%d) ", a);
+            la->move_front(*nodes[(size_t)a]);
+            unlink(ma, a);
+            ma.insert(ma.begin(), a);
+            break;
+        case 2:
+            c.log("B.back(n%d) ", a);
+            lb->move_back(*nodes[(size_t)a]);
+            unlink(mb, a);
+            mb.push_back(a);
+            break;
+        case 3:
+            c.log("B.front(n%d) ", a);
+            lb->move_front(*nodes[(size_t)a]);
+            unlink(mb, a);
+            mb.insert(mb.begin(), a);
+            break;
+        case 4:
+            c.log("unlinkA(n%d) ", a);
+            nodes[(size_t)a]->lnk.unlink();
+            unlink(ma, a);
+            break;
+        default:
+            c.log("unlinkB(n%d) ", a);
+            nodes[(size_t)a]->lnk2.unlink();
+            unlink(mb, a);
+        }
+        if (b_first)
+        {
+            check_b();
+            check_a();
+        }
+        else
+        {
+            check_a();
+            check_b();
+        }
+    }
+    c.nontrivial = !ma.empty() && !mb.empty();
+    for (auto &n : nodes)
+    {
+        n->lnk.unlink();
+        n->lnk2.unlink();
+    }
+    delete la;
+    delete lb;
+}
+
+// Very long lists: 65530..65545 nodes (counts that do not fit 16 bits) on a C dlist, an igris::dlist and a C slist —
+// size queries against traversal counts, before and after a few removals.
+void t_lists_huge(Src &s, Case &c)
+{
+    size_t n = (size_t)s.range(65530, 65545);
+    int kind = (int)s.below(3);
+    c.log("%zu nodes on a %s", n, kind == 0 ? "C dlist" : kind == 1 ? "igris::dlist" : "C slist");
+    c.nontrivial = true;
+    if (kind == 0)
+    {
+        std::vector<CNode> nodes(n);
+        dlist_head head;
+        dlist_init(&head);
+        for (size_t i = 0; i < n; i++)
+        {
+            nodes[i].id = (int)i;
+            dlist_init(&nodes[i].lnk);
+            if (i & 1)
+                dlist_add_prev(&nodes[i].lnk, &head);
+            else
+                dlist_add_next(&nodes[i].lnk, &head);
+        }
+        size_t walked = 0;
+        dlist_head *it;
+        dlist_for_each(it, &head) walked++;
+        VP_CHECK(walked == n && (size_t)dlist_size(&head) == n && (size_t)dlist_size_reversed(&head) == n && !dlist_empty(&head), "huge_dlist_size",
+                 "%zu nodes: traversal counts %zu, dlist_size %d, dlist_size_reversed %d, dlist_empty %d", n, walked, dlist_size(&head), dlist_size_reversed(&head),
+                 dlist_empty(&head));
+        size_t drop = (size_t)s.range(1, 7);
+        for (size_t i = 0; i < drop; i++)
+            dlist_del_init(&nodes[i * 1000].lnk);
+        VP_CHECK((size_t)dlist_size(&head) == n - drop, "huge_dlist_size", "after %zu removals dlist_size is %d, want %zu", drop, dlist_size(&head), n - drop);
+        for (auto &nd : nodes)
+            dlist_del_init(&nd.lnk);
+    }
+    else if (kind == 1)
+    {
+        std::vector<XNode> nodes(n);
+        auto *l = new XList;
+        for (size_t i = 0; i < n; i++)
+        {
+            nodes[i].id = (int)i;
+            if (i & 1)
+                l->move_back(nodes[i]);
+            else
+                l->move_front(nodes[i]);
+        }
+        size_t walked = 0;
+        for (auto it = l->begin(); it != l->end(); ++it)
+            walked++;
+        VP_CHECK(walked == n && l->size() == n && !l->empty(), "huge_cxx_dlist_size", "%zu nodes: traversal counts %zu, size() %zu", n, walked, (size_t)l->size());
+        size_t drop = (size_t)s.range(1, 7);
+        for (size_t i = 0; i < drop; i++)
+            nodes[i * 1000].lnk.unlink();
+        VP_CHECK(l->size() == n - drop, "huge_cxx_dlist_size", "after %zu removals size() is %zu, want %zu", drop, (size_t)l->size(), n - drop);
+        for (auto &nd : nodes)
+            nd.lnk.unlink();
+        delete l;
+    }
+    else
+    {
+        std::vector<SNode> nodes(n);
+        slist_head head;
+        slist_init(&head);
+        for (size_t i = 0; i < n; i++)
+        {
+            nodes[i].id = (int)i;
+            slist_add(&nodes[i].lnk, &head);
+        }
+        size_t walked = 0;
+        slist_head *it;
+        slist_for_each(it, &head) walked++;
+        VP_CHECK(walked == n && (size_t)slist_size(&head) == n && !slist_empty(&head), "huge_slist_size", "%zu nodes: traversal counts %zu, slist_size %d", n, walked,
+                 slist_size(&head));
+        size_t drop = (size_t)s.range(1, 7);
+        for (size_t i = 0; i < drop; i++)
+            slist_pop_first(&head);
+        VP_CHECK((size_t)slist_size(&head) == n - drop, "huge_slist_size", "after %zu pops slist_size is %d, want %zu", drop, slist_size(&head), n - drop);
+    }
+}
+
 void t_c_dlist_enum(Src &s, Case &c) { run_history<CDlistWorldF>(s, c, true, "c_dlist"); }
 void t_cxx_dlist_enum(Src &s, Case &c) { run_history<CxxDlistWorld>(s, c, true, "cxx_dlist"); }
 template <int OPS> unsigned __int128 dl_enum_size(int tier)
@@ -851,13 +1050,6 @@ template <int OPS> unsigned __int128 dl_enum_size(int tier)
 // =========================================================================
 // slist (C functions + igris::slist)
 // =========================================================================
-struct SNode
-{
-    int id;
-    char pad[4];
-    slist_head lnk;
-};
-typedef igris::slist<SNode, &SNode::lnk> XSlist;
 
 void t_slist(Src &s, Case &c)
 {
@@ -1145,6 +1337,11 @@ VP_TARGET("c_dlist_many", t_c_dlist_many,
 VP_TARGET("cxx_dlist_many", t_cxx_dlist_many, "igris::dlist with 258..300 nodes on 1..2 lists and 300..800 operations; same checks, every 16th step and at the end");
 VP_TARGET("slist_many", t_slist_many, "C slist / igris::slist with 258..300 nodes: every node added once, then up to 200 random operations; same checks (every 16th step and at the end)");
 VP_TARGET("hlist_many", t_hlist_many, "hlist with 258..300 nodes: every node added once to list 0, then up to 200 random operations; same checks (every 16th step and at the end)");
+VP_TARGET("cxx_dlist_two_links", t_cxx_dlist_two_links,
+          "igris::dlist: 1..6 nodes that carry two link members of the same type and sit on two lists at once (one per member); move_front/back and unlink on either; after every "
+          "operation both lists must read as their reference and hand out the very node objects (in a drawn observation order); non-trivial = both lists non-empty at the end");
+VP_TARGET("lists_huge", t_lists_huge,
+          "65530..65545 nodes on a C dlist, an igris::dlist or a C slist: size queries equal the traversal count, before and after 1..7 removals");
 VP_TARGET("c_dlist_enum", t_c_dlist_enum, "exhaustive: every history of 3 (quick) / 4 (thorough) operations x 3 nodes x 5 targets over 2 lists (C dlist)",
           dl_enum_size<11>);
 VP_TARGET("cxx_dlist_enum", t_cxx_dlist_enum, "exhaustive: every history of 3 (quick) / 4 (thorough) operations x 3 nodes x 5 targets over 2 lists (igris::dlist)",
